@@ -7,6 +7,7 @@
 -/
 import Uec.Lemmas.Plushy
 import Uec.Model.PlushySpec
+import Uec.Model.PushSyntax
 namespace Uec.Props.C05
 open Uec Uec.Plushy
 variable {ι : Type} (opens : ι → Nat)
@@ -213,6 +214,39 @@ theorem parse_unparse (p : List (Tree ι)) (h : WS opens p) : toProgram opens (u
   have := (parse_unparse_aux opens p h true []).1
   rw [List.append_nil, pItems_nil, List.append_nil] at this
   exact this
+
+/-! ### The crate's own instruction set
+
+The theorems above hold for every table `opens`.  The table of the crate is `Prog.numOpens` (`Instr0.numOpens` for
+instructions): the correspondence check tells the model *this* table - not what the real `num_opens()` answers - and
+compares the real answer with it instruction by instruction. -/
+
+/-- the documented table: `IfElse` opens two blocks, `DupBlock`, `When`, `Unless` one, every other instruction none -/
+theorem opener_table (i : Instr0) :
+    i.numOpens = (if i = .exec .ifElse then 2
+      else if i = .exec .dupBlock ∨ i = .exec .when ∨ i = .exec .unless then 1 else 0) := by
+  cases i with
+  | exec e => cases e <;> simp [Instr0.numOpens]
+  | _ => simp [Instr0.numOpens]
+
+/-- an exec literal opens no block, whatever it carries (an opener, a block holding openers, …) -/
+theorem literal_opens_nothing (payload : Prog) : (Prog.execPush payload).numOpens = 0 := rfl
+
+/-- the translation of genomes over the crate's instructions is well shaped for the crate's table, reads the genome
+    depth first, and is the open-block automaton - instances of the general theorems -/
+theorem crate_translation (genes : List (Gene Prog)) :
+    WS Prog.numOpens (toProgram Prog.numOpens genes) ∧
+    toProgram Prog.numOpens genes = automaton Prog.numOpens genes :=
+  ⟨wellShaped_parse Prog.numOpens genes, parse_eq_automaton Prog.numOpens genes⟩
+
+/-- non-vacuity: an `IfElse` literal among the genes is a leaf; the `IfElse` instruction after it takes two blocks -/
+example : toProgram Prog.numOpens
+    [.instr (.execPush (.instr (.exec .ifElse))), .instr (.instr (.exec .ifElse)), .instr (.instr (.int .add)), .close,
+     .instr (.instr (.int .inc))] =
+    [.instr (.execPush (.instr (.exec .ifElse))), .instr (.instr (.exec .ifElse)),
+     .block [.instr (.instr (.int .add))], .block [.instr (.instr (.int .inc))]] := by
+  show pItems Prog.numOpens true _ = _
+  simp [pItems_instr, pRest_instr, bItems_succ, bRest_succ, Prog.numOpens, Instr0.numOpens]
 
 /-! ### Non-vacuity / examples evaluated by the kernel -/
 section examples
